@@ -420,7 +420,7 @@ def run(F, rep):
         if root not in reach and k not in reach:
             continue
         for bi, t in f.calls():
-            if t.get("indirect") or not re.search(r"thread::local::LocalKey::<T>::\w+$", t["callee"]):
+            if t.get("indirect") or not re.search(r"thread::local::LocalKey::<[^>]*(<[^>]*>)?>::\w+$", t["callee"]):
                 continue
             ntls += 1
             key = layerint.tls_key_of_operand(F, f, t["args"][0]) if t["args"] else None
